@@ -28,6 +28,17 @@ KNOWN_FILE = os.path.join(VERIF, "known_findings.json")
 ALL = ["C%02d" % i for i in range(1, 21)]
 
 
+UNIT_VIOLATION_CAP = 200
+
+
+class StopUnit(Exception):
+    """Raised by Result.violation when a unit has recorded UNIT_VIOLATION_CAP violations; carries the result so far."""
+
+    def __init__(self, res):
+        Exception.__init__(self, "unit stopped after %d violations" % UNIT_VIOLATION_CAP)
+        self.res = res
+
+
 class Result:
     """What one unit of work measured."""
 
@@ -62,6 +73,9 @@ class Result:
             self.violations[sig] = v
         else:
             old["n"] += 1
+        # a unit that has met this many violations has made its point: stop it (a broken tree must not take hours)
+        if sum(x["n"] for x in self.violations.values()) >= UNIT_VIOLATION_CAP:
+            raise StopUnit(self)
 
     def sample(self, case):
         if len(self.samples) < 3:
@@ -118,7 +132,11 @@ def _work(arg):
 def _work2(pid, tier, unit):
     try:
         mod = _module(pid)
-        res = mod.run_unit(unit, tier)
+        try:
+            res = mod.run_unit(unit, tier)
+        except StopUnit as stop:
+            res = stop.res
+            res.count("caps_hit")      # (only ever on a tree that violates the property: the evidence then says "not exhaustive")
         # make violations picklable / JSON-able early
         for v in res.violations.values():
             v["unit"] = unit
@@ -153,6 +171,15 @@ def _child(conn, fn, arg):
     try:
         os.setsid()        # a process group of its own: a unit may fork pristine processes itself (mc.fresh)
     except OSError:
+        pass
+    try:
+        # an address-space limit per worker (units need a few hundred MB): code under test that grows its data without
+        # bound meets a MemoryError inside the call -- which the checks record as a violation of the case at hand --
+        # instead of having the worker killed by the kernel
+        import resource
+        lim = int(float(os.environ.get("VERIF_UNIT_MEM_GB", "2")) * 2 ** 30)
+        resource.setrlimit(resource.RLIMIT_AS, (lim, lim))
+    except (ImportError, ValueError, OSError):
         pass
     try:
         conn.send(fn(arg))
@@ -280,7 +307,11 @@ def run_property(pid, tier, jobs, seed, quiet=False):
             os.remove(os.path.join(REPLAY_DIR, f))
     unknown, known_hit = [], []
     rc = 0
+    overflow = 0
     for n, (sig, v) in enumerate(sorted(total.violations.items(), key=lambda kv: (_size(kv[1]), kv[0]))):
+        if len(unknown) >= 25 and sig not in known_sigs:
+            overflow += 1      # 25 confirmed, replayable violations (the smallest) are reported; the others are counted
+            continue
         # re-execute once from the stored case (a non-reproducing violation is a harness error)
         # (in a fresh process: the parent never executes code under test, so that every forked
         # worker starts from the same pristine state)
@@ -337,8 +368,8 @@ def run_property(pid, tier, jobs, seed, quiet=False):
         if not quiet:
             print("   signature: %s (x%d)\n   %s" % (sig, v["n"], v["msg"]))
             print("   observed: %s\n   expected: %s" % (v["observed"], v["expected"]))
-    if len(unknown) > 20:
-        print("   ... and %d more distinct signatures" % (len(unknown) - 20))
+    if len(unknown) > 20 or overflow:
+        print("   ... and %d more distinct signatures" % (max(0, len(unknown) - 20) + overflow))
     if unknown:
         rc = 1
 
